@@ -235,7 +235,8 @@ def sampler_corr(ctx, rng):
     from bioscrape.random import py_seed_random, py_normal_rv, py_gamma_rv, py_uniform_rv, py_exponential_rv
     from scipy import stats
     cases = [("uniform", []), ("exponential", [2.5]), ("normal", [1.5, 0.3]), ("normal", [0.0, 2.0]),
-             ("gamma", [1.0, 0.7]), ("gamma", [2.5, 0.7]), ("gamma", [7.0, 0.1])]
+             ("gamma", [1.0, 0.7]), ("gamma", [2.5, 0.7]), ("gamma", [2.5, 1.4]), ("gamma", [7.0, 0.1]), ("gamma", [7.0, 2.0]),
+             ("normal", [1.5, 0.3])]
     n = 400 if ctx.quick() else 20000
     jobs, reals = [], []
     for kind, args in cases:
